@@ -157,6 +157,15 @@ for n in (0, 1, 5, 17):
             back = pl.read_csv(os.path.join(tmp, "x.csv"))
             ok = back.shape == df.shape and (n == 0 or np.all(np.abs(back["b"].to_numpy() - df["b"].to_numpy()) <= 0.5 * 10.0 ** -p + 1e-12))
             check("csv rounded to float_precision", ok, (n, p))
+for _ in range(30):
+    runs = rng.integers(1, 4, size=int(rng.integers(1, 5)))
+    keys = rng.permutation(len(runs))
+    col = np.concatenate([[float(k)] * int(r) for k, r in zip(keys, runs)])          # contiguous key column
+    g = [x["i"].to_list() for _, x in pl.DataFrame({"k": col, "i": np.arange(len(col))}).group_by(["k"], maintain_order=True)]
+    check("contiguous keys: groups are consecutive runs in row order", sum(g, []) == list(range(len(col))), col.tolist())
+    col2 = rng.integers(0, 3, size=int(rng.integers(1, 9))).astype(float)
+    g2 = [x["i"].to_list() for _, x in pl.DataFrame({"k": col2, "i": np.arange(len(col2))}).group_by(["k"], maintain_order=True)]
+    check("the first group starts at row 0", g2[0][0] == 0, col2.tolist())
 df = pl.DataFrame({"a": [1.0, 2.0], "b": [3.0, 4.0]})
 try:
     pl.concat([df, df.select("a")], how="vertical")
